@@ -175,7 +175,7 @@ func artefact2(c C13Case, order []int) (art string, imports int, suffixed bool, 
 		// two more files of one namespace, with templates whose names differ in case only (two templates,
 		// not one defined twice); their place follows the permutation of the others
 		d1, d2 := "zzcase1.soy", "zzcase2.soy"
-		s1, s2 := "{namespace zz.cases}\n/** */\n{template .Item}upper{msg desc=\"d\"}Item{/msg}{/template}\n", "{namespace zz.cases}\n/** */\n{template .item}lower{msg desc=\"d\"}item{/msg}{/template}\n"
+		s1, s2 := "{namespace zz.cases}\n/** */\n{template .Item}upper{msg desc=\"d\"}Item{/msg}{msg meaning=\"ab\" desc=\"d\"}c{/msg}{msg meaning=\"verb\" desc=\"d\"}Archive{/msg}{/template}\n", "{namespace zz.cases}\n/** */\n{template .item}lower{msg desc=\"d\"}item{/msg}{msg meaning=\"a\" desc=\"d\"}bc{/msg}{msg desc=\"d\"}verbArchive{/msg}{msg desc=\"d\"}abc{/msg}{/template}\n"
 		if len(order) > 1 && order[0] > order[1] {
 			d1, d2, s1, s2 = d2, d1, s2, s1
 		}
